@@ -119,3 +119,34 @@ Proof.
   intros ND Hr Hnn S. destruct (feret_end_to_end ijv indexes r ND Hr Hnn) as [HS [mx [mq [E [M _]]]]].
   exists mx, mq. split; [exact E|]. rewrite M. apply (max_d2_hull _ _ HS).
 Qed.
+
+(* ---------------------------------------------------------------- the vectorised model, end to end *)
+From Centro Require Import Proofs.HullTop Proofs.MecVecSimC13.
+
+Lemma rows_labels ijv indexes : NoDup indexes -> nonneg_rows ijv ->
+  map fst (fst (convex_hull_ijv ijv indexes)) = indexes.
+Proof.
+  intros ND Hnn. apply (nth_ext _ _ 0 0).
+  - rewrite map_length. apply result_length.
+  - intros r Hr. rewrite map_length, result_length in Hr.
+    change 0 with (fst (0, @nil pt)) at 1. rewrite map_nth. rewrite request_own by assumption. reflexivity.
+Qed.
+
+(* on the rows C02's model hands over, C14's vectorised bookkeeping model equals the per-object model:
+   with mec_end_to_end_full, every position of the VECTORISED call is the minimum enclosing circle of the
+   requested label's own pixels *)
+Theorem mec_vec_end_to_end ijv indexes :
+  NoDup indexes -> (forall j, In j indexes -> 0 <= j) -> nonneg_rows ijv ->
+  mec_rows_vec (fst (convex_hull_ijv ijv indexes)) = mec_rows (fst (convex_hull_ijv ijv indexes)).
+Proof.
+  intros ND NN Hnn. apply mec_rows_vec_correct.
+  - rewrite rows_labels by assumption. exact ND.
+  - rewrite rows_labels by assumption. exact NN.
+  - intros row Hrow. destruct (In_nth _ _ (0, []) Hrow) as [r [Hr Er]]. rewrite result_length in Hr.
+    rewrite request_own in Er by assumption. subst row. cbn [snd].
+    destruct (mec_end_to_end ijv indexes r ND Hr Hnn) as [_ [He Hc]]. cbv zeta in He, Hc.
+    rewrite mec_own_rows_full in He, Hc by assumption.
+    destruct (pts_of ijv (nth r indexes 0)) as [|p t] eqn:ES.
+    + rewrite (He eq_refl). discriminate.
+    + destruct (Hc ltac:(discriminate)) as [ny [nx [d [rn [E _]]]]]. rewrite E. discriminate.
+Qed.
